@@ -242,10 +242,40 @@ def sweep_locks(ctx, prop):
     return out, {}
 
 
+def sweep_unbound(ctx, prop):
+    rd = RuleDef(prop, f"{prop}.sweep.T16", "T16", "whole-package sweep: local reads are definitely assigned", None, 1, "thorough")
+    out = RuleOutcome(rd)
+    r = R(rd)
+    from .lib import possibly_unbound
+
+    n_fn = 0
+    for fn in ctx.ix.all_functions():
+        if fn.parent is not None:
+            continue
+        n_fn += 1
+        try:
+            hits = possibly_unbound(ctx, fn)
+        except AnalysisError:
+            continue
+        for n, sub in hits:
+            claimed = fn.module.name.startswith(CLAIMED_MODULE_PREFIXES) and not fn.module.name.startswith("jade.cli.hpc_jobs")
+            msg = f"`{sub.id}` may be unbound at {fn.loc(sub)} in {fn.short} (`{ctx.src(n.stmt)[:50]}`)"
+            if claimed:
+                r.bad(key_of(fn, f"possibly unbound local {sub.id}"), fn.loc(sub), msg, "UnboundLocalError aborts the round / the batch on this path")
+            else:
+                r.note(msg + " - outside every claimed clause")
+    r.ok(f"{n_fn} functions swept", functions=n_fn)
+    out.obligations, out.findings, out.notes = r.obligations, r.findings, r.notes
+    if out.findings:
+        out.verdict = "VIOLATION"
+    return out, {"functions_swept_definite_assignment": n_fn}
+
+
 SWEEPS = {
     "T12": {"C16", "C07", "C06", "C17", "C09"},
     "X0": {"C05", "C14", "C15", "C07", "C16"},
     "T7": {"C08", "C09", "C10", "C11"},
+    "T16": {"C16", "C11", "C12"},
 }
 
 
@@ -265,6 +295,10 @@ def run_thorough(prop, ctx, seed):
         extra.update(ex)
     if prop in SWEEPS["T7"]:
         o, ex = sweep_locks(ctx, prop)
+        outcomes.append(o)
+        extra.update(ex)
+    if prop in SWEEPS["T16"]:
+        o, ex = sweep_unbound(ctx, prop)
         outcomes.append(o)
         extra.update(ex)
     # (c) mutation self-test of this property's rules
